@@ -9,6 +9,16 @@ CODECS = ["gzip", "xz", "zstd", "bzip2"]
 
 def make_archive(r, idx):
     t = {b"": Node("dir", 0o755)}
+    if idx >= 1000:
+        # the end-of-archive marker ends at (or one block around) a multiple of the 256 KiB stream buffer and is followed
+        # by the usual record padding: what comes after the marker is only seen by a reader that goes on to the stream end
+        k, delta = 1 + ((idx - 1000) // 3) % 2, (-512, 0, 512)[(idx - 1000) % 3]
+        for size in range(262144 * k + delta - 1024 - 512 * 2 - 511, 262144 * k + delta):
+            t[b"big"] = Node("file", 0o644, data=[("rand", idx, size // 2), ("words", idx, size - size // 2)], mtime=1000)
+            tar, notes = tarmodel.write_tree(t, "ustar", name_prefix=b"./", pad_to=None)
+            if len(tar) == 262144 * k + delta:
+                return t, tar + bytes(10240 - len(tar) % 10240)
+        raise AssertionError("no size gives a marker at %d" % (262144 * k + delta))
     n = r.choice([4, 8, 20])
     for i in range(n):
         kind = r.choice(["text", "rand", "zero", "small"])
@@ -36,6 +46,42 @@ def entry_boundaries(tar):
         pending_ext = tf in (b"x", b"L", b"K", b"g")
         pos += 512 + ((size + 511) // 512 * 512 if tf not in (b"1", b"2", b"3", b"4", b"5", b"6") else 0)
     return out
+
+
+def file_data_offsets(tar):
+    """Offsets of content bytes of plain regular members (not covered by any tar checksum)."""
+    out = []
+    pos = 0
+    while pos + 512 <= len(tar) and tar[pos:pos + 512] != bytes(512):
+        h = tar[pos:pos + 512]
+        szf = h[124:136]
+        size = int.from_bytes(szf[1:], "big") if szf[0] & 0x80 else int(szf.strip(b"\0 ") or b"0", 8)
+        tf = h[156:157]
+        if tf in (b"0", b"\0") and size > 0:
+            out.append((pos + 512, size))
+        pos += 512 + ((size + 511) // 512 * 512 if tf not in (b"1", b"2", b"3", b"4", b"5", b"6") else 0)
+    return out
+
+
+def wrong_checksum(r, codec, tar):
+    """A well-formed compressed stream of an archive with one changed content byte, whose integrity check field is
+    damaged: only a decoder that gets to (and verifies) the check can tell."""
+    regions = file_data_offsets(tar)
+    if not regions or codec == "zstd":
+        return None
+    off, size = r.choice(regions)
+    t2 = bytearray(tar)
+    t2[off + r.randrange(size)] ^= 0x20
+    c = bytearray(codecs.compress(codec, bytes(t2)))
+    if codec == "gzip":
+        c[len(c) - 8 + r.randrange(4)] ^= 1 << r.randrange(8)
+    elif codec == "bzip2":
+        c[10 + r.randrange(4)] ^= 1 << r.randrange(8)          # CRC of the first block
+    elif codec == "xz":
+        backward = int.from_bytes(c[-8:-4], "little")
+        check = len(c) - 12 - (backward + 1) * 4 - 8         # CRC64 of the (single) block
+        c[check + r.randrange(8)] ^= 1 << r.randrange(8)
+    return bytes(c)
 
 
 def framings(r, codec, tar):
@@ -129,6 +175,15 @@ def forward_case(arg):
                     pos = r.randrange(12, len(b))
                     b[pos] ^= 1 << r.randrange(8)
                     negs.append(("bitflip", bytes(b)))
+                for _ in range(2 if tier == "quick" else 6):
+                    # damage close to the end: only the check sums in the stream trailer can tell
+                    b = bytearray(whole)
+                    pos = r.randrange(max(12, len(b) * 3 // 4), len(b))
+                    b[pos] ^= 1 << r.randrange(8)
+                    negs.append(("bitflip-late", bytes(b)))
+                wc = wrong_checksum(r, codec, tar)
+                if wc is not None:
+                    negs.append(("content-changed-checksum-wrong", wc))
                 negs.append(("garbage-suffix", whole + r.randbytes(r.choice([1, 10, 600]))))
                 negs.append(("zero-padding", whole + bytes(r.choice([4, 512, 1024]))))
                 for kind, data in negs:
@@ -221,7 +276,7 @@ def main(tier):
                       "reverse: sqfs2tar -c X decoded by the reference codec must equal plain sqfs2tar for tar streams sized around multiples of the 256 KiB wrapper buffer; distinct = (archive, codec, framing)")
     build.build("asan")
     nf, nr = (12, 18) if tier == "quick" else (150, 120)
-    for oc in core.pmap(forward_case, [(i, tier) for i in range(nf)]):
+    for oc in core.pmap(forward_case, [(i, tier) for i in range(nf)] + [(1000 + i, tier) for i in range(6)]):
         rep.add(oc)
     for oc in core.pmap(reverse_case, [(i, tier) for i in range(nr)]):
         rep.add(oc)
